@@ -576,20 +576,39 @@ def run_plan(case, res, dig, stats):
         members = {n: z.read(n) for n in z.namelist()}
     if members != f1:
         raise Violation("archive_contents", -1, {"members": sorted(members)[:6], "planned": sorted(f1)[:6]})
-    scratch = tempfile.mkdtemp(prefix="verif-c09-", dir="/var/tmp")
+    scratch = os.path.realpath(tempfile.mkdtemp(prefix="verif-c09-", dir="/var/tmp"))
     cwd = os.getcwd()
     try:
-        root = plan1.extract(os.path.join(scratch, "build"))
+        os.chdir(scratch)
+        # fault: a plan that tries to leave the build root is refused in the middle of extraction; the process must be left
+        # as it was (working directory!), and a following legal extraction into a relative root must land where it should
+        from amaranth.build.run import BuildPlan
+        bad = BuildPlan(script="build_bad")
+        bad.add_file("ok.txt", "fine")
+        bad.add_file("../escape.txt", "nope")
+        try:
+            bad.extract("bad_build")
+        except AssertionError:
+            stats["faults"]["refuse_extract"] = stats["faults"].get("refuse_extract", 0) + 1
+        else:
+            raise Violation("illegal_plan_extracted", -1, {"file": "../escape.txt"})
+        if os.getcwd() != scratch:
+            raise Violation("extract_changed_cwd", -1, {"cwd": os.getcwd(), "after": "refused extraction"})
+        if os.path.exists(os.path.join(scratch, "escape.txt")):
+            raise Violation("extract_wrote_outside_root", -1, {"entries": ["escape.txt"]})
+        root = plan1.extract("build")
+        if os.path.realpath(str(root)) != os.path.join(scratch, "build"):
+            raise Violation("extract_wrong_root", -1, {"root": str(root), "expected": os.path.join(scratch, "build")})
         got = {}
-        for dp, dn, fn in os.walk(root):
+        for dp, dn, fn in os.walk(os.path.join(scratch, "build")):
             for f in fn:
                 full = os.path.join(dp, f)
-                got[os.path.relpath(full, root)] = open(full, "rb").read()
+                got[os.path.relpath(full, os.path.join(scratch, "build"))] = open(full, "rb").read()
         if got != f1:
             raise Violation("extract_contents", -1, {"written": sorted(got)[:8], "planned": sorted(f1)[:8]})
-        if os.getcwd() != cwd:
+        if os.getcwd() != scratch:
             raise Violation("extract_changed_cwd", -1, {"cwd": os.getcwd()})
-        others = [x for x in os.listdir(scratch) if x != "build"]
+        others = [x for x in os.listdir(scratch) if x not in ("build", "bad_build")]
         if others:
             raise Violation("extract_wrote_outside_root", -1, {"entries": others})
     finally:
